@@ -47,6 +47,7 @@ fn profile_of(s: &str) -> arena::Profile {
         "layera" => LayerA,
         "uniform" => Uniform,
         "panics" => Panics,
+        "apisweep" => ApiSweep,
         _ => {
             eprintln!("MACHINERY: unknown profile {s}");
             std::process::exit(2)
